@@ -761,4 +761,19 @@ def rule_D1(tree: Tree) -> RuleResult:
                      f"the builder substitutes the literal {[l.value for l in lits]} when a record's payload is None; Decryptor.decrypt returns None for {fall[:6]} — "
                      f"invented bytes would be exported", ob.module.line(b.node)))
     r.notes.append(f"placeholder literals in build(): {[l.value for l in lits]}; (version, bulk) pairs falling through decrypt(): {len(fall)} of {len(tables.VERSIONS) * len(bulks)}")
+    # … and it is substituted for a *missing* payload only (`is None`): an empty plaintext (zero-length application record, TLS 1.0 empty-fragment
+    # countermeasure) is a payload, a truthiness test would replace it by the literal
+    r.instances += 1
+    cfgb = cfg_of(b.node)
+    bad = []
+    for l in lits:
+        try:
+            nid = cfgb.node_of(l)
+        except Exception:
+            continue
+        facts = [(src(e), t) for e, t in cfgb.facts_at(nid)]
+        if not any(s.endswith(" is None") and t for s, t in facts):
+            bad.append(f"{l.value!r} under {[(s, t) for s, t in facts][-2:]}")
+    r.ob(not bad, Finding("D1", "output_builder:OutputBuilder.build:placeholder-guard",
+                          f"the placeholder may only replace a payload that `is None`; found {bad}: a correctly decrypted empty record would be exported as the literal", ob.module.line(b.node)))
     return r
